@@ -216,6 +216,18 @@ pub struct UserModel<'a> {
     pause_evaluation: bool,
 }
 
+#[cfg(ironcalc_verif)]
+impl UserModel<'_> {
+    /// Verification hook: (undo stack depth, redo stack depth)
+    pub fn verif_history_len(&self) -> (usize, usize) {
+        (self.history.undo_stack.len(), self.history.redo_stack.len())
+    }
+    /// Verification hook: number of diff lists waiting in the send queue
+    pub fn verif_queue_len(&self) -> usize {
+        self.send_queue.len()
+    }
+}
+
 /// Given the index of the currently selected sheet, returns the index that same
 /// sheet occupies after the worksheet at `from` is moved to `to`. This lets the
 /// selection follow a sheet by identity across a reorder instead of pointing at
